@@ -279,6 +279,12 @@ func (tmp *tmpfile) Write(b []byte) (int, error) {
 
 func (tmp *tmpfile) cleanup() {
 	tmp.f.Close()
+	if !tmp.isOTmp {
+		// a named temp file that was not linked into the namespace (the
+		// upload failed or was refused) would stay behind with whatever
+		// the client sent; after a successful link the name is gone
+		os.Remove(tmp.f.Name())
+	}
 }
 
 func (tmp *tmpfile) File() *os.File {
